@@ -8,12 +8,16 @@
 From GoCar Require Import Bytes Varint Cid Header Frame V2Header Index Store Deferred.
 From GoCarProofs Require Import DeferredFacts.
 
-(* lazy: as long as the history has issued no Put before its first Close, after every step the output is
-   empty and no file exists *)
+(* lazy: as long as the history has issued no Put before its first Close, after every step nothing has
+   been written and the output path is untouched: no file if there was none, otherwise the pre-existing
+   file with exactly its bytes ([dc_pre c], any bytes) *)
 Theorem C20_lazy :
   forall (c : dcfg) (ops : list dop),
     d_puts ops = [] ->
-    Forall (fun so => d_bytes (fst so) = [] /\ d_exists (fst so) = false) (d_trace c d_init ops).
+    Forall (fun so =>
+              d_bytes c (fst so) = match dc_target c, dc_pre c with TPath, Some b => b | _, _ => [] end /\
+              d_exists c (fst so) = match dc_target c, dc_pre c with TPath, Some _ => true | _, _ => false end)
+           (d_trace c d_init ops).
 Proof. exact lazy_init. Qed.
 Print Assumptions C20_lazy.
 
@@ -30,6 +34,27 @@ Theorem C20_identical :
            if existsb is_close ops then fst (st_finalize s1) else s1).
 Proof. exact identical_init. Qed.
 Print Assumptions C20_identical.
+
+(* ... so the observable output is exactly the direct writer's bytes WHATEVER was at the path before:
+   [dc_pre c] (absent, empty, shorter or longer than the output) does not occur on the right-hand side --
+   the path is opened with create+truncate, nothing of an old file survives *)
+Theorem C20_output_is_direct_whatever_was_there :
+  forall (c : dcfg) (ops : list dop) (s : wstate),
+    d_inner (d_run c d_init ops) = Some s ->
+    exists s0 : wstate,
+      open_new (dc_kind c) (eff_opts c) (dc_nilroots c) (dc_roots c) [] = Ok s0 /\
+      d_bytes c (d_run c d_init ops)
+      = ws_file (let s1 := fold_left (fun s kd => fst (st_put s (fst kd) (snd kd))) (d_puts ops) s0 in
+                 if existsb is_close ops then fst (st_finalize s1) else s1).
+Proof. exact output_is_direct. Qed.
+Print Assumptions C20_output_is_direct_whatever_was_there.
+
+(* the inner writer of a path target exists only once the path has been opened (created / truncated) *)
+Theorem C20_file_created_with_writer :
+  forall (c : dcfg) (ops : list dop),
+    d_inner (d_run c d_init ops) <> None -> dc_target c = TPath -> d_created (d_run c d_init ops) = true.
+Proof. exact created_init. Qed.
+Print Assumptions C20_file_created_with_writer.
 
 (* ... and each Put answers what the direct writer answers *)
 Theorem C20_put_result_is_direct :
